@@ -52,6 +52,14 @@ def run_case(cs, layout=None):
                 r = f.sort_index(ascending=asc)
                 src, dst = cs['f']['index'], P.labels_of(r.index)
             elif op == 'f_sort_columns':
+                if cs.get('grown'):
+                    k = len(f.columns) - cs['grown']
+                    g = f.iloc[:, :k].to_frame_go()
+                    if cs.get('read_first'):
+                        g.columns.values
+                    for lab in list(f.columns)[k:]:
+                        g[lab] = f[lab].values
+                    f = g
                 r = f.sort_columns(ascending=asc)
                 src, dst = cs['f']['columns'], P.labels_of(r.columns)
             elif op == 'f_sort_values':
@@ -178,6 +186,21 @@ def gen_case(rng, big=True):
         return {'op': 'f_sort_index', 'f': f, 'ascending': asc}, C.rand_layout(rng, f)
     f = {'index': [['i', i] for i in range(n)], 'columns': cl, 'cols': cols, 'name': ['s', 'nm']}
     if r < 0.55:
+        if rng.random() < 0.5:
+            # hierarchical column labels (tree ordered, unsorted), and - half of the time - a grow-only Frame whose last columns were added
+            # after its column labels had been read: sorting must see every column the Frame holds
+            nc2 = rng.randint(2, 6)
+            tups = []
+            for o in rng.sample(['B', 'A', 'C'], rng.randint(1, 3)):
+                for x in rng.sample(range(1, 9), rng.randint(1, 3)):
+                    tups.append(['t', [['s', o], ['i', x]]])
+            tups = tups[:nc2]
+            f = {'index': [['i', i] for i in range(n)], 'columns': tups, 'cols': [_keyvals(rng, n, 'i', 3) for _ in tups], 'name': ['s', 'nm']}
+            cs = {'op': 'f_sort_columns', 'f': f, 'ascending': asc}
+            if len(tups) >= 2 and rng.random() < 0.6:
+                cs['grown'] = rng.randint(1, len(tups) - 1)
+                cs['read_first'] = rng.random() < 0.8
+            return cs, C.rand_layout(rng, f)
         return {'op': 'f_sort_columns', 'f': f, 'ascending': asc}, C.rand_layout(rng, f)
     if r < 0.9 or n == 0:
         by = rng.sample(cl, nk)
